@@ -420,3 +420,42 @@ func vh_C19_BuilderAliases() {
 	vfAssert("builder-stable", stable)
 	vfReach("end")
 }
+
+// two builders derived from the same prefix builder each sort by their own descriptor stack, in whatever order they
+// are derived and used (a builder is a value: ThenWith* must not write into its receiver's storage)
+func vh_C19_BuilderForks() {
+	n := vfRange("n", 2, 3)
+	rows := c19Rows("r", n)
+	prefixLen := vfRange("prefix", 0, 2)
+	p := NewSortDescriptorsBuilder[c19Row]()
+	for i := 0; i < prefixLen; i++ {
+		p = p.ThenWithFieldName("S", true) // ties on S are frequent: the later keys decide
+	}
+	a := p.ThenWithFieldName("A", true)
+	b := p.ThenWithTransformerFunctor(func(r c19Row) Comparable[interface{}] { return r.B }, false)
+	var outA, outB []c19Row
+	if !vfNoPanic("nopanic-builder", func() { outA = a.ToSortedList(rows...); outB = b.ToSortedList(rows...) }) {
+		return
+	}
+	check := func(pfx string, out []c19Row, byA bool) {
+		vfAssert(pfx+"len", len(out) == n)
+		ordered := true
+		for i := 0; i+1 < len(out); i++ {
+			x, y := out[i], out[i+1]
+			sTie := true
+			if prefixLen > 0 {
+				ordered = vfAnd(ordered, x.S.Val <= y.S.Val)
+				sTie = x.S.Val == y.S.Val
+			}
+			if byA {
+				ordered = vfAnd(ordered, vfImplies(sTie, x.A.Val <= y.A.Val))
+			} else {
+				ordered = vfAnd(ordered, vfImplies(sTie, x.B.Val >= y.B.Val))
+			}
+		}
+		vfAssert(pfx+"ordered", ordered)
+	}
+	check("builder-", outA, true)
+	check("builder-", outB, false)
+	vfReach("end")
+}
